@@ -27,6 +27,12 @@ type c09scenario struct {
 	victim    lcSpec
 	stopAt    time.Duration // 0 = never: graceful stop request for the victim
 	fileStart []uint32      // tokens file present before the victim starts
+	// restartTokens: the process that replaces the crashed one is configured with this many tokens (0 = unchanged),
+	// so that an entry found in the ring has to be topped up or trimmed
+	restartTokens int
+	// claim: before the restart another instance takes over the dead instance's tokens (Desc.ClaimTokens, as a
+	// hand-over does), leaving its entry without tokens
+	claim bool
 }
 
 type fault struct {
@@ -178,6 +184,14 @@ func runC09(t *testing.T, sc c09scenario, f fault) (res c09result) {
 			_ = fileLogAtCrash
 			vsp2 := sc.victim
 			vsp2.id, vsp2.tag, vsp2.genStart = "v", "v2", 9
+			vsp2.numTokens = sc.restartTokens
+			if sc.claim && crashEntry != nil && crashEntry.State == ring.LEAVING { // a hand-over happens while the instance is leaving
+				d := descOf(st.Peek(ringKey))
+				d.ClaimTokens("v", "b")
+				st.Put("claimer", ringKey, d)
+				c := d.Ingesters["v"]
+				crashEntry = &c
+			}
 			restarted = buildLifecycler(st, vsp2)
 			horizon = elapsed() + 20*time.Second
 			e.Go("s-restart:v", func() { _ = restarted.svc.StartAsync(context.Background()) })
@@ -200,6 +214,14 @@ func runC09(t *testing.T, sc c09scenario, f fault) (res c09result) {
 		ent, ok := cur.Ingesters["v"]
 		bent := cur.Ingesters["b"]
 		stoppedGracefully := sc.stopAt > 0 && !crashed
+		numTokens := numTokens
+		if crashed && sc.restartTokens > 0 {
+			// an entry found ACTIVE is taken over as it is; every other restart path ends with the configured count
+			numTokens = sc.restartTokens
+			if crashEntry != nil && crashEntry.State == ring.ACTIVE {
+				numTokens = len(crashEntry.Tokens)
+			}
+		}
 		switch {
 		case stoppedGracefully:
 			// a graceful stop: the entry is gone (unregister) or LEAVING with its tokens
@@ -259,6 +281,25 @@ func runC09(t *testing.T, sc c09scenario, f fault) (res c09result) {
 			}
 		}
 		res.outcome = fmt.Sprintf("%s|%s", show(ent, ok), show(bent, true))
+		if crashed && res.viol == "" && ok && !stoppedGracefully && !sc.victim.basic {
+			// What the recovered process REMEMBERS must be what it registered: the ring key is lost once more and the
+			// running lifecycler re-registers itself from memory at a later heartbeat.
+			before := append([]uint32(nil), ent.Tokens...)
+			e.Enable()
+			st.Wipe(ringKey)
+			horizon = elapsed() + 12*time.Second
+			e.Run()
+			e.Disable()
+			synctest.Wait()
+			cur2 := descOf(st.Peek(ringKey))
+			ent2, ok2 := cur2.Ingesters["v"]
+			if !ok2 || ent2.State != ring.ACTIVE || fmt.Sprint(ent2.Tokens) != fmt.Sprint(before) {
+				fail("remembered-differs", "%s, %s: after its recovery the lifecycler had registered tokens %v; when the ring key was lost afterwards it re-registered itself as %s", sc.name, f, before, show(ent2, ok2))
+			}
+			if tf, okf := tokensOfFile(); sc.victim.tokensFile != "" && okf && len(tf) > 0 && fmt.Sprint([]uint32(tf)) != fmt.Sprint(before) {
+				fail("file-mismatch", "%s, %s: tokens file holds %v, the recovered lifecycler had registered %v", sc.name, f, tf, before)
+			}
+		}
 		restarted.svc.StopAsync()
 		victim.svc.StopAsync()
 		bystander.svc.StopAsync()
@@ -312,6 +353,10 @@ func scenariosC09() []c09scenario {
 		{name: "restart-from-tokens-file", victim: lcSpec{joinAfter: 1500 * time.Millisecond, tokensFile: tokensPath}, fileStart: []uint32{11, 12}},
 		{name: "leave-unregister", victim: lcSpec{unregister: true}, stopAt: 6500 * time.Millisecond},
 		{name: "leave-keep", victim: lcSpec{}, stopAt: 6500 * time.Millisecond},
+		{name: "leave-keep-restart-more-tokens", victim: lcSpec{tokensFile: tokensPath}, stopAt: 6500 * time.Millisecond, restartTokens: 3},
+		{name: "leave-keep-restart-fewer-tokens", victim: lcSpec{}, stopAt: 6500 * time.Millisecond, restartTokens: 1},
+		{name: "join-restart-more-tokens", victim: lcSpec{joinAfter: 1500 * time.Millisecond}, restartTokens: 3},
+		{name: "leave-keep-tokens-claimed", victim: lcSpec{tokensFile: tokensPath}, stopAt: 6500 * time.Millisecond, claim: true},
 		{name: "basic-join", victim: lcSpec{basic: true, tokensFile: tokensPath}},
 		{name: "basic-restart-from-file", victim: lcSpec{basic: true, tokensFile: tokensPath}, fileStart: []uint32{11, 12}},
 		{name: "basic-leave-unregister", victim: lcSpec{basic: true, unregister: true}, stopAt: 6500 * time.Millisecond},
@@ -325,8 +370,8 @@ func TestC09Crash(t *testing.T) {
 	for _, s := range scs {
 		names = append(names, s.name)
 	}
-	rep.Bound = fmt.Sprintf("scenarios %v (full Lifecycler and BasicLifecycler + TokensPersistency, always next to a bystander lifecycler holding tokens): a crash before and after the commit of EVERY store write the lifecycler performs followed by a restart with the same identity on the surviving store and tokens file; every window [a,b) of failing CAS attempts; a wipe of the ring key after every commit", names)
-	rep.Rule = "pass 0 runs fault-free and learns the number N of commits; then one real execution per fault point under the virtual clock; oracle: back to ACTIVE with the full token count, tokens recorded before the crash (ring entry, else tokens file) kept, registration time kept if the entry survived and fresh after a wipe, no token shared with the bystander, bystander untouched, every write still passes the C08 monitor, tokens file equals the ring entry; distinct_nontrivial = distinct (scenario, fault) whose run differs from the fault-free one"
+	rep.Bound = fmt.Sprintf("scenarios %v (full Lifecycler and BasicLifecycler + TokensPersistency, always next to a bystander lifecycler holding tokens): a crash before and after the commit of EVERY store write the lifecycler performs followed by a restart with the same identity on the surviving store and tokens file; every window [a,b) of failing CAS attempts; a wipe of the ring key after every commit; restarts with a larger / smaller configured token count; the dead instance's tokens claimed by the bystander before the restart; after every recovery the ring key is lost once more", names)
+	rep.Rule = "pass 0 runs fault-free and learns the number N of commits; then one real execution per fault point under the virtual clock; oracle: back to ACTIVE with the full token count, tokens recorded before the crash (ring entry, else tokens file) kept, registration time kept if the entry survived and fresh after a wipe, no token shared with the bystander, bystander untouched, every write still passes the C08 monitor, tokens file equals the ring entry, and what the recovered process re-registers from memory after a later loss of the ring equals what it had registered; distinct_nontrivial = distinct (scenario, fault) whose run differs from the fault-free one"
 	deadline := ev.Deadline(8 * time.Minute)
 	for _, sc := range scs {
 		base := runC09(t, sc, fault{kind: "none"})
